@@ -27,7 +27,7 @@ LEVEL = "fault_enumeration"
 BATCH = 1
 TIMEOUT = 900
 REQUIRED_OBS = ["scripts_run", "success_runs_checked", "failure_runs_checked", "recovered_after_failure", "odeint_runs",
-                "ladder_level_2_reached", "thermal_network_scripts", "reinit_failure_reached"]
+                "ladder_level_2_reached", "thermal_network_scripts", "reinit_failure_reached", "cusparse_runs", "cusparse_failing_outcomes"]
 RULE = ("fault scripts for the mock CVODE: first call in {ok, warning +1/+99, fail(flag, frac)}, then per recovery level "
         "{all ok, fail at sub-step s in {1, middle, last} with (flag, frac)}, flags {-1,-2,-3,-4,-6,-5,-7,-8,-22}, frac in "
         "{0, 0.37, 1-2^-52, 1}, optional failing CVodeReInit; exhaustive to depth 1 (quick) / 2 (thorough) plus random scripts "
@@ -149,6 +149,20 @@ def gen_cases(tier):
         od.append({"mxsteps": mx, "nsteps": rng.randint(1, 2 * mx + 2), "throw_at": rng.choice([-1, -1, -1, rng.randint(0, 2 * mx)])})
     for o in od:
         o["dt"] = rng.choice(DTS)
+    # cusparse method (CPU emulation of the CUDA surface): one CVode call per stream, no recovery ladder - every failing outcome
+    # must come back as failure with the initial state logged, every non-negative one as success over exactly dt
+    cu = []
+    for f in [0, 1, 99] + FLAGS_ALL:
+        for fr in FRACS:
+            cu.append({"flag": f, "frac": fr if f < 0 else 1.0})
+    for _ in range(60 if tier == "quick" else 2000):
+        f = rng.choice([0, 1, 99] + FLAGS_ALL)
+        cu.append({"flag": f, "frac": rng.random() if f < 0 else 1.0})
+    for o in cu:
+        o["dt"] = rng.choice(DTS)
+        o["nsystem"] = rng.choice([1, 2, 3, 8, 40])
+    cases.append({"kind": "cusparse", "net": "small", "scripts": cu[0::2], "y0": 0.0})
+    cases.append({"kind": "cusparse", "net": "thermal", "scripts": cu[1::2], "y0": 1.0})
     cases.append({"kind": "odeint", "net": "small", "scripts": od[0::2], "y0": 0.0})
     cases.append({"kind": "odeint", "net": "empty", "scripts": od[1::2], "y0": 1.0})
     return cases
@@ -164,7 +178,69 @@ THERMAL = {"species": [chem.make_species([("H", 1)]), chem.make_species([("H", 1
            "reactions": [{"reactants": ["H+", "e-"], "products": ["H"], "pseudo": None, "idx": 1}], "required": []}
 
 
+def run_cusparse(case, ctx):
+    obs, viol = Counter(), []
+    work = ctx.fresh_dir("c19cu")
+    netd = {"small": SMALL, "thermal": THERMAL}[case["net"]]
+    ncase = {"net": netd, "alphas": [1.5, 0.25][:len(netd["reactions"])], "entry": "api"}
+    if case["net"] == "thermal":
+        ncase["cooling"] = ["CIC_HI", "RC_HII"]
+    try:
+        net = S.build_network(ncase, work)
+        proj = S.render(net, "cusparse", work / "proj")
+        b = lab.build_cusparse(proj, work / "b", ctx.cache, seams=True, with_naunet=True)
+    except lab.BuildError as e:
+        return {"status": "violated", "violations": [violation("emitted_code_does_not_compile", f"cusparse {e.unit}: {'; '.join(e.diagnostics()[:3])}")], "obs": {}}
+    except Exception as e:
+        return {"status": "violated", "violations": [violation("generator_or_run_failure", f"{type(e).__name__}: {e}")], "obs": {}}
+    n_eq = lab.run_driver(b["exe"], ["info"], work / "b", leaks=False).by_ev("info")[0]["NEQUATIONS"]
+    cmds, y0s = [], []
+    for sc in case["scripts"]:
+        ns = sc["nsystem"]
+        y0 = [case["y0"] + 1.0 + 0.125 * i + 0.5 * s for s in range(ns) for i in range(n_eq)]
+        y0s.append(y0)
+        cmds += [f"nsys {ns} 2", "set -1 nH 100", "set -1 Tgas 50", "y " + " ".join(lab.fmt(v) for v in y0),
+                 f"script 1 {sc['flag']} {lab.fmt(sc['frac'])}", f"solve {lab.fmt(sc['dt'])}"]
+    # the generated Finalize of this method never frees its execution policies / vector contents: leak reports are not judged here
+    rr = lab.run_driver(b["exe"], cmds, work / "b", timeout=800, leaks=False)
+    if rr.sanitizer_reports:
+        viol.append(violation("sanitizer_report", rr.sanitizer_reports[0][:300], stderr=rr.stderr[-1500:]))
+    solves = rr.by_ev("solve")
+    if len(solves) != len(case["scripts"]):
+        viol.append(violation("driver_crash", f"{len(solves)} of {len(case['scripts'])} cusparse solves completed", stderr=rr.stderr[-1500:]))
+    for sc, ev, y0 in zip(case["scripts"], solves, y0s):
+        obs["scripts_run"] += 1
+        obs["cusparse_runs"] += 1
+        dt = sc["dt"]
+        adv = [a - b0 for a, b0 in zip(ev["ab"], y0)]
+        tol = 1e-9 * dt + 4e-16 * (max(map(abs, y0)) + dt)
+        exact = all(abs(a - dt) <= tol for a in adv)
+        failing = sc["flag"] < 0 and ev["cvode_calls"] >= 1
+        if failing:
+            obs["cusparse_failing_outcomes"] += 1
+        if ev["ret"] == 0:
+            obs["success_runs_checked"] += 1
+            if failing:
+                viol.append(violation("success_after_failed_call", f"cusparse/{case['net']}: Solve returned success although CVode returned {sc['flag']} after "
+                                      f"{sc['frac']:.3g} of the interval (state advanced by {adv[:3]} of dt={dt!r})", script=sc,
+                                      mechanism="C19/cusparse-solve-ignores-cvode-flag"))
+            elif not exact:
+                viol.append(violation("success_but_wrong_interval", f"cusparse/{case['net']}: success, dt={dt!r}, advanced {adv[:3]}", script=sc))
+        else:
+            obs["failure_runs_checked"] += 1
+            ylog = ev["y_logged"]
+            ok = len(ylog) >= len(y0) and all(abs(a - b0) <= 1e-6 * max(1.0, abs(b0)) for a, b0 in zip(ylog, y0))
+            if not failing:
+                viol.append(violation("failure_without_fault", f"cusparse: failure although CVode returned {sc['flag']}", script=sc))
+            elif not ok or not ev["logged_unrecoverable"]:
+                viol.append(violation("failure_without_initial_state", f"cusparse: failure but the error record holds y={ylog[:4]} (initial {y0[:4]})", script=sc))
+    sample = {"target": f"cusparse/{case['net']}", "scripts": len(case["scripts"]), "example_script": case["scripts"][0] if case["scripts"] else None}
+    return {"status": "violated" if viol else "held", "violations": viol[:10], "obs": dict(obs), "nontrivial": True, "sample": sample}
+
+
 def run_case(case, ctx):
+    if case["kind"] == "cusparse":
+        return run_cusparse(case, ctx)
     obs, viol = Counter(), []
     work = ctx.fresh_dir("c19")
     netd = {"small": SMALL, "empty": EMPTY, "thermal": THERMAL}[case["net"]]
